@@ -58,6 +58,7 @@ def build_c(run):
     run.assume("freq[1024], ma[len], hopping[64], *hopp_len are valid, pairwise separate objects (both call sites pass members of "
                "struct gsm48_sysinfo / struct gsm48_rrlayer and a message buffer)")
     run.extra["verbatim_extraction"] = tu.extraction
+    K.finish(run)
 
 
 build = build_c
@@ -119,17 +120,11 @@ def harness_flags():
     return R.host_flags() + ["-I", frontend.SHIM]
 
 
-def replay_c(payload):
-    w = payload["inputs"]
-    if w.get("func") == "lemma":
-        return {"confirmed": False, "observed": "spec-level lemma", "expected": "n/a"}
-    tu = get_tu()
-    con = the_contract(tu)
-    ln, si4, ma, mask = w["len"], w["si4"], list(w["ma"]), list(w["mask"])
-    ma = (ma + [0] * ln)[:ln]
-    res = R.run_harness(harness(tu), harness_flags(), [ln, si4] + ma + mask, timeout=60)
+def run_one(h, con, ln, si4, ma, mask):
+    """run the real function on one input; -> (differences from the oracle, observation summary, expectation)"""
+    res = h.run([ln, si4] + ma + mask, timeout=60)
     if res.get("rc") is None:
-        return {"confirmed": False, "error": "harness build failed", "detail": res}
+        return None, res, None
     out = res.get("stdout", "")
     obs = {}
     for line in out.splitlines():
@@ -163,9 +158,57 @@ def replay_c(payload):
         if obs["hopp_len"] != 0xee or any(x != 0xeeee for x in obs["hopping"]) or obs.get("mask") != mask:
             bad["outputs_touched"] = [True, False]
     short = {k: v for k, v in obs.items() if k not in ("mask",)}
-    return {"confirmed": bool(bad), "observed": short, "expected": exp, "differs": bad, "sanitizer": res.get("sanitizer"),
-            "stderr_head": (res.get("stderr") or "")[:600], "inputs_summary": {"len": ln, "si4": si4, "ma": ma,
-            "cell_allocation": S.cell_alloc(mask, con.SERV)[:70]}, "cmd": res.get("cmd")}
+    short["sanitizer"] = res.get("sanitizer")
+    short["stderr_head"] = (res.get("stderr") or "")[:400]
+    return bad, short, exp
+
+
+def search_inputs(seed, n):
+    """inputs for the bounded native search: small cell allocations around the ARFCN-0 / order corner cases, dense bitmaps"""
+    import random
+    rnd = random.Random(seed)
+    for k in range(n):
+        size = rnd.choice([0, 1, 2, 3, 5, 8, 9, 16, 17, 40, 64, 65])
+        pool = [0, 1, 2, 1022, 1023] + [rnd.randrange(1024) for _ in range(80)]
+        ca = set(rnd.sample(pool, min(size, len(set(pool))))) if size else set()
+        mask = [(rnd.randrange(256) & ~1) | (1 if a in ca else 0) for a in range(S.NARFCN)]
+        ln = rnd.choice([1, 1, 2, 2, 3, 8, 8, 9, 0 if k % 50 == 49 else 4])
+        ma = [rnd.choice([0, 0xff, rnd.randrange(256), rnd.randrange(256)]) for _ in range(ln)]
+        yield ln, rnd.randrange(2), ma, mask
+
+
+def replay_c(payload):
+    """1. the model's inputs on the real function (ASan/UBSan) against the oracle.
+    2. when they do not fail (a counter-model of an inductive step need not be a reachable state): bounded native search
+       over seeded inputs; a failing input found there is reported as such (`found_by: search`)."""
+    import os
+    w = payload["inputs"]
+    if w.get("func") == "lemma":
+        return {"confirmed": False, "observed": "spec-level lemma", "expected": "n/a"}
+    tu = get_tu()
+    con = the_contract(tu)
+    ln, si4, ma, mask = w["len"], w["si4"], list(w["ma"]), list(w["mask"])
+    ma = (ma + [0] * ln)[:ln]
+    with R.Harness(harness(tu), harness_flags()) as h:
+        bad, obs, exp = run_one(h, con, ln, si4, ma, mask)
+        if bad is None:
+            return {"confirmed": False, "error": "harness build failed", "detail": obs}
+        summary = {"len": ln, "si4": si4, "ma": ma, "cell_allocation": S.cell_alloc(mask, con.SERV)[:70]}
+        if bad:
+            return {"confirmed": True, "found_by": "model", "observed": obs, "expected": exp, "differs": bad,
+                    "sanitizer": obs.get("sanitizer"), "inputs_summary": summary, "cmd": h.cmd}
+        seed = int(os.environ.get("VERIF_SEED", "0") or 0)
+        tried = 0
+        for (l2, s2, ma2, mask2) in search_inputs(seed, 400):
+            tried += 1
+            b2, o2, e2 = run_one(h, con, l2, s2, ma2, mask2)
+            if b2 and not (l2 == 0 and payload.get("clause") != "vla_bound_positive"):
+                return {"confirmed": True, "found_by": "search (the model's inputs did not fail; seeded native search, %d runs)" % tried,
+                        "observed": o2, "expected": e2, "differs": b2, "sanitizer": o2.get("sanitizer"),
+                        "inputs_summary": {"len": l2, "si4": s2, "ma": ma2, "cell_allocation": S.cell_alloc(mask2, con.SERV)[:70]},
+                        "failing_inputs": {"len": l2, "si4": s2, "ma": ma2, "mask": mask2}, "cmd": h.cmd}
+        return {"confirmed": False, "observed": obs, "expected": exp, "differs": {}, "inputs_summary": summary,
+                "note": "model inputs and %d seeded native runs all agree with the oracle" % tried, "cmd": h.cmd}
 
 
 replay = replay_c
@@ -180,3 +223,49 @@ def known_predicate_c(o, k):
 
 
 known_predicate = known_predicate_c
+
+
+# ------------------------------------------------------------------ negative controls (engine/cvc/selftest.py)
+
+class _WrongOrder(CM.DecodeMobileAlloc):
+    """deliberately wrong: claims the bitmap is read from the FIRST octet (MSB-first octet order)"""
+    cases = (("si4", 0),)
+
+    def ensures(self, c, old, new, ret):
+        posts = CM.DecodeMobileAlloc.ensures(self, c, old, new, ret)
+        m = c.memo
+        try:
+            T = c.ret_locals.i
+        except Exception:
+            return posts
+        ma, ln = m["ma"], c.a.len
+        wrong_bit = lambda x: S.has_bit(z3.Select(ma, x / 8), 1)        # bit 0 of octet x/8, counted from the first octet
+        return posts + [("WRONG_first_octet_first", z3.Implies(z3.And(ln == 2, T == 16, S.bit(ma, ln, 0)), wrong_bit(0)))]
+
+
+class _WrongCount(CM.DecodeMobileAlloc):
+    """deliberately wrong: claims the list always has as many entries as the bitmap has bits"""
+    cases = (("si4", 1),)
+
+    def ensures(self, c, old, new, ret):
+        return [("WRONG_count_is_8len", z3.Implies(c.a.len <= 8, new.get(c.a.hopp_len) == 8 * c.a.len))]
+
+
+def _wrong(cls):
+    def b(run):
+        tu = get_tu()
+        K.verify(run, ID, tu, the_contract(tu, cls))
+    return b
+
+
+WRONG_POSTS = [
+    ("decode: first octet first", _wrong(_WrongOrder), "post.WRONG_first_octet_first"),
+    ("decode: count is 8*len", _wrong(_WrongCount), "post.WRONG_count_is_8len"),
+]
+MUTANTS = [
+    (CM.SYSINFO, "ma[len - 1 - (i >> 3)]", "ma[i >> 3]", "gsm48_decode_mobile_alloc_loop3"),
+    (CM.SYSINFO, "if (i >= j) {", "if (i > j) {", "gsm48_decode_mobile_alloc_"),
+    (CM.SYSINFO, "if (len > 8)\n\t\treturn -EINVAL;", "if (len > 9)\n\t\treturn -EINVAL;", "gsm48_decode_mobile_alloc_"),
+    (CM.SYSINFO, "for (i = 1; i <= 1024; i++) {", "for (i = 1; i < 1024; i++) {", "gsm48_decode_mobile_alloc_"),
+    (CM.SYSINFO, "freq[i].mask &= ~FREQ_TYPE_HOPP;", "freq[i].mask &= ~FREQ_TYPE_SERV;", "gsm48_decode_mobile_alloc_loop1"),
+]
